@@ -402,10 +402,15 @@ def vectorize_apply(vf, args, kwargs):
         kw = {k: (x.e[i] if isinstance(x, SymArray) else x) for k, x in kwargs.items()}
         outs.append(R.call_value(vf.pyfunc, a, kw))
     if vf.otypes is not None:
-        return SymArray(outs).astype({"d": float, "l": int, "q": int, "?": bool}[vf.otypes[0]])
+        return SymArray(outs).astype(otype_to_py(vf.otypes[0]))
     if VECTORIZE_STRICT:
         return strict_first_row_dtype(outs)
     return SymArray(outs)
+
+
+def otype_to_py(o):
+    k = numpy.dtype(o).kind
+    return {"f": float, "i": int, "u": int, "b": bool}[k]
 
 
 def strict_first_row_dtype(outs):
